@@ -15,7 +15,8 @@ From SZ Require Import Model.Pipeline Proofs.Pipeline.
 Theorem C16_generated_programs :
   main_ops = [Start TC; Start TW; Produce Qc; Join Qc; Join Qw; Flush] /\
   compressor_pro = [] /\ compressor_loop = [Get Qc; Compress; Put Qw; TaskDone Qc] /\
-  writer_pro = [WriteHeader] /\ writer_loop = [Get Qw; WriteFile; TaskDone Qw].
+  writer_pro = [WriteHeader] /\ writer_loop = [Get Qw; WriteFile; TaskDone Qw] /\
+  caller_ops = [[CallLoop; WriteFooters; PatchHash]; [CallLoop; WriteFooters; PatchHash]].
 Proof. exact generated_programs_eq. Qed.
 Print Assumptions C16_generated_programs.
 
